@@ -742,6 +742,11 @@ def obligations(tier):
   # generalized pipeline, stage by stage at the function boundaries: transform_com is covariant, mass.matrix and dynamics.inverse are rotation invariant
   obs += [generalized_stage_invariant('mass', 'chain3[1,2,1]'), generalized_stage_invariant('bias', 'chain3[1,2,1]'), generalized_stage_invariant('mass', 'two-trees[f,1;2]'),
           generalized_stage_invariant('bias', 'two-trees[f,1;2]'), transform_com_covariant('h', Q), transform_com_covariant('s', Th)]
+  # "listing sibling bodies in a different order only permutes the per-link results": two trees with the same joint types evaluated in one process (C02's history obligation)
+  from verif.contracts import C02
+  hb = C02.crb_history(Q)
+  hb.id = hb.id.replace('C02/', 'C05/')
+  obs.append(hb)
   # premises: "every quantity is carried in an explicit frame and moved with Transform.do / inv_do / math.rotate" -- the frame-moving helpers are what they claim to be
   # (the corresponding C09 obligations, carried here as premises so that a slip in one of them is reported against C05 as well)
   # the callee contract of scan._take (every index list, also those only forests of 7+ links produce) -- shared with C01
